@@ -16,7 +16,9 @@ open IpcHub.Rtsp IpcHub.RtspSpec
     and then closed), the `onRequest` dispatch (PLAY answers by itself, everything else is
     answered after the switch, unknown methods get 455), the two `onPlay` guards, the
     response-before-attach order of the consumer roles, the deferred cleanup, the method
-    tokens and the status codes. -/
+    tokens and the status codes; `newResponse` (the only constructor of responses, called once per
+    request) copies the request's CSeq and sets the Session header to the id assigned in
+    `newSession`, and nothing else in the session files touches either header or the id. -/
 theorem c12_source_facts :
     IpcHub.Gen.rtspFactsUnknown = [] ∧
     cfgOk genCfg = true ∧
@@ -31,6 +33,11 @@ theorem c12_source_facts :
       ("MethodSetup", "s.onSetup", false), ("MethodRecord", "s.onRecord", false), ("MethodPlay", "s.onPlay", true)] ∧
     IpcHub.Gen.rtspDispatchDefault = "StatusMethodNotValidInThisState" ∧
     IpcHub.Gen.rtspRequestRespondsAfterSwitch = true ∧
+    IpcHub.Gen.rtspNewResponseSets = [("FieldCSeq", "req.Header.Get(FieldCSeq)"), ("FieldSession", "s.lsession")] ∧
+    IpcHub.Gen.wspNewResponseSets = [("FieldCSeq", "req.Header.Get(FieldCSeq)"), ("FieldSession", "s.lsession")] ∧
+    IpcHub.Gen.respIdentityTouched = [] ∧
+    IpcHub.Gen.newResponseCalls = [("rtsp:onRequest", 1), ("wsp:onRequest", 1)] ∧
+    genWspSid = true ∧
     IpcHub.Gen.wspDispatch = [("MethodDescribe", "s.onDescribe", false), ("MethodSetup", "s.onSetup", false),
       ("MethodPlay", "s.onPlay", false), ("MethodPause", "s.onPause", false)] ∧
     IpcHub.Gen.wspDispatchDefault = "StatusMethodNotValidInThisState" ∧
@@ -55,32 +62,25 @@ theorem c12_source_facts :
       ("StatusInternalServerError", 500)] := by
   decide
 
-/-- The refusal ladders of the handlers (condition, status constant) in source order: the model's
-    handlers mirror exactly these. -/
+/-- The refusal ladders of the handlers (condition, status constant, how the rung ends: the `return`
+    that leaves the handler, or "else" when the accepting branch is skipped) in source order: the
+    model's handlers mirror exactly these; a rung that no longer leaves the handler breaks this. -/
 theorem c12_source_ladders :
-    IpcHub.Gen.onPlayLadder = [("s.mode != PlaySession || s.transport.Type == RTPUnknownTrans", "StatusMethodNotValidInThisState"),
-      ("stream == nil", "StatusNotFound"), ("!s.checkPermission(auth.PullRight)", "StatusForbidden")] ∧
-    IpcHub.Gen.onRecordLadder = [("s.mode != RecordSession || s.transport.Type != RTPTCPUnicast", "StatusMethodNotValidInThisState"),
-      ("!s.checkPermission(auth.PushRight)", "StatusForbidden")] ∧
-    IpcHub.Gen.onDescribeLadder = [("stream == nil", "StatusNotFound"), ("!s.checkPermission(auth.PullRight)", "StatusForbidden"),
-      ("len(sdpRaw) == 0", "StatusNotFound"), ("err != nil", "StatusNotFound")] ∧
-    IpcHub.Gen.onAnnounceLadder = [("req.Header.Get(FieldContentType) != \"application/sdp\"", "StatusBadRequest"),
-      ("!s.checkPermission(auth.PushRight)", "StatusForbidden"), ("err != nil", "StatusBadRequest")] ∧
-    IpcHub.Gen.onSetupLadder = [("err != nil", "StatusInternalServerError"), ("err != nil", "StatusInternalServerError"),
-      ("err != nil", "StatusInvalidParameter"), ("s.mode != s.transport.Mode", "StatusInvalidParameter"),
-      ("!s.checkPermission(auth.PushRight)", "StatusForbidden"), ("s.transport.Type != RTPTCPUnicast", "StatusUnsupportedTransport"),
-      ("!s.checkPermission(auth.PullRight)", "StatusForbidden"), ("st == nil", "StatusNotFound"), ("ma == nil", "StatusUnsupportedTransport")] ∧
-    IpcHub.Gen.wspOnSetupLadder = [("vPath == \"\"", "StatusInternalServerError"), ("err != nil", "StatusInvalidParameter"),
-      ("rtsp.PlaySession != s.transport.Mode", "StatusInvalidParameter"), ("s.transport.Type != rtsp.RTPTCPUnicast", "StatusUnsupportedTransport")] ∧
-    IpcHub.Gen.wspOnPlayLadder = [("stream == nil", "StatusNotFound"), ("!s.checkPermission()", "StatusForbidden")] ∧
-    IpcHub.Gen.wspOnDescribeLadder = [("stream == nil", "StatusNotFound"), ("!s.checkPermission()", "StatusForbidden"),
-      ("len(sdpRaw) == 0", "StatusNotFound"), ("err != nil", "StatusNotFound")] := by
+    IpcHub.Gen.onPlayLadder = [("s.mode != PlaySession || s.transport.Type == RTPUnknownTrans", "StatusMethodNotValidInThisState", "return s.response(resp)"), ("stream == nil", "StatusNotFound", "return s.response(resp)"), ("!s.checkPermission(auth.PullRight)", "StatusForbidden", "return s.response(resp)")] ∧
+    IpcHub.Gen.onRecordLadder = [("s.mode != RecordSession || s.transport.Type != RTPTCPUnicast", "StatusMethodNotValidInThisState", "return"), ("!s.checkPermission(auth.PushRight)", "StatusForbidden", "return")] ∧
+    IpcHub.Gen.onDescribeLadder = [("stream == nil", "StatusNotFound", "return"), ("!s.checkPermission(auth.PullRight)", "StatusForbidden", "return"), ("len(sdpRaw) == 0", "StatusNotFound", "return"), ("err != nil", "StatusNotFound", "return")] ∧
+    IpcHub.Gen.onAnnounceLadder = [("req.Header.Get(FieldContentType) != \"application/sdp\"", "StatusBadRequest", "return"), ("!s.checkPermission(auth.PushRight)", "StatusForbidden", "return"), ("err != nil", "StatusBadRequest", "return")] ∧
+    IpcHub.Gen.onSetupLadder = [("err != nil", "StatusInternalServerError", "return"), ("err != nil", "StatusInternalServerError", "return"), ("err != nil", "StatusInvalidParameter", "return"), ("s.mode != s.transport.Mode", "StatusInvalidParameter", "return"), ("!s.checkPermission(auth.PushRight)", "StatusForbidden", "return"), ("s.transport.Type != RTPTCPUnicast", "StatusUnsupportedTransport", "else"), ("!s.checkPermission(auth.PullRight)", "StatusForbidden", "return"), ("st == nil", "StatusNotFound", "return"), ("ma == nil", "StatusUnsupportedTransport", "return")] ∧
+    IpcHub.Gen.wspOnSetupLadder = [("vPath == \"\"", "StatusInternalServerError", "return"), ("err != nil", "StatusInvalidParameter", "return"), ("rtsp.PlaySession != s.transport.Mode", "StatusInvalidParameter", "return"), ("s.transport.Type != rtsp.RTPTCPUnicast", "StatusUnsupportedTransport", "return")] ∧
+    IpcHub.Gen.wspOnPlayLadder = [("stream == nil", "StatusNotFound", "return"), ("!s.checkPermission()", "StatusForbidden", "return")] ∧
+    IpcHub.Gen.wspOnDescribeLadder = [("stream == nil", "StatusNotFound", "return"), ("!s.checkPermission()", "StatusForbidden", "return"), ("len(sdpRaw) == 0", "StatusNotFound", "return"), ("err != nil", "StatusNotFound", "return")] := by
   decide
 
 /-- Exactly one response per request, echoing its CSeq: for EVERY state of an open session,
     every request and every environment (registry, SDP parser, permissions, sockets), the
     session of the current source tree writes exactly one response and it carries the request's
-    CSeq.  (The Session id is set by `newResponse` on every response; it is not data of the model.) -/
+    CSeq.  (The Session id: `c12_source_facts` pins `newResponse`; `cfgOk genCfg` includes it and
+    `c12_model_accepted` carries it through the reference automaton's `session-id-missing` clause.) -/
 theorem c12_one_response (s : Sess) (r : Req) (e : Env) (h : s.closed = false) :
     ∃ x, respsOf (step genCfg s r e).2 = [x] ∧ x.cseq = r.cseq :=
   step_one_response genCfg (cfgOk_spec c12_source_facts.2.1).1 s r e h
@@ -101,8 +101,10 @@ theorem c12_455_inert (cfg : Cfg) (s : Sess) (r : Req) (e : Env) (x : Resp)
     they are legal, success only along DESCRIBE → SETUP → PLAY and ANNOUNCE → SETUP → RECORD (a SETUP whose
     `mode` parameter contradicts the direction is never accepted), a consumer attached exactly
     while playing, a stream published exactly while recording, refusals inert, TEARDOWN and
-    disconnect release everything.  The only hypothesis: the SETUP path the URL library delivers
-    is not the empty string. -/
+    disconnect release everything, every response carries the session id, and media precedes the
+    response to a request only on a session that was already playing when the request was made
+    (`media-before-play`).  The only hypothesis: the SETUP path the URL library delivers is not the
+    empty string. -/
 theorem c12_model_accepted (ws : Bool) (wsPath : List Char) (ins : List Input) (hwf : ∀ i ∈ ins, i.wf) :
     accepts .rtsp (trace genCfg (Sess.init ws wsPath) ins) = true := by
   have h := (trace_mrun genCfg c12_source_facts.2.1 ins (Sess.init ws wsPath) (sinv_init ws wsPath) hwf).1
@@ -218,7 +220,9 @@ theorem c12_teardown_releases (s : Sess) (i : Input) (hopen : s.closed = false)
     while playing and refused with 455 before; one response per request; consumer attached exactly
     while playing; TEARDOWN and disconnect release it). -/
 theorem c12_wsp_accepted (wsPath : List Char) (ins : List Input) :
-    accepts .wsp (wtrace genWspGate (WSess.init wsPath) ins) = true := by
+    accepts .wsp (wtrace genWspGate genWspSid (WSess.init wsPath) ins) = true := by
+  have hsid : genWspSid = true := by decide
+  rw [hsid]
   have h := wtrace_mrun genWspGate c12_source_facts.2.2.1 ins (WSess.init wsPath) (winv_init wsPath)
   have h0 : wmstateOf (WSess.init wsPath) = MState.init := rfl
   rw [h0] at h
@@ -232,7 +236,7 @@ theorem c12_wsp_pause_witness :
       | .ready => m == .setup || m == .play
       | .playing => m == .play || m == .pause
       | _ => !(m == .play || m == .record)
-    ∀ (e : Env), verdict .wsp (wtrace oldGate (WSess.init []) [.req { (default : Req) with method := .pause } e])
+    ∀ (e : Env), verdict .wsp (wtrace oldGate true (WSess.init []) [.req { (default : Req) with method := .pause } e])
       = "illegal-method-not-455" := by
   intro oldGate e
   rfl
@@ -261,6 +265,33 @@ theorem c12_play_twice_witness :
     ∀ (r : Req) (e : Env), r.method = .play → respsOf (step old s r e).2 = [] := by
   intro old s r e hm
   simp [step, old, s, Sess.init, hm, genCfg, gateOfTable, IpcHub.Gen.rtspGate, statusName, gateRow, methodOfName, onPlay, respsOf]
+
+/-- The media clause of the reference automaton has teeth: media in front of the response to the very
+    first request (DESCRIBE, answered 200), or together with the 200 of a PLAY on plain RTSP, is
+    rejected as `media-before-play`; a response without the session id as `session-id-missing`. -/
+theorem c12_media_sid_witness :
+    let o (m : Method) (media sid : Bool) : Obs :=
+      { hangup := false, method := m, ask := .unspecified, nresp := 1, code := 200, cseqOk := true, sidOk := sid,
+        consumers := 0, published := false, closed := false, media := media }
+    verdict .rtsp [o .describe true true] = "media-before-play" ∧
+    verdict .rtsp [o .describe false true, o .setup false true, { o .play true true with consumers := 1 }] = "media-before-play" ∧
+    verdict .rtsp [o .describe false true, o .setup false true, { o .play false true with consumers := 1 },
+      { o .options true true with consumers := 1 }] = "ok" ∧
+    verdict .rtsp [o .describe false false] = "session-id-missing" := by
+  decide
+
+/-- The model does produce media observations (non-vacuity of the media clause inside
+    `c12_model_accepted`): after DESCRIBE, SETUP, PLAY the next request is observed with `media`. -/
+theorem c12_media_observed :
+    let env : Env := { lookup := fun _ => some { sdp := 1, mc := none }, sdp := fun _ => { ok := true, medias := [(.video, "t=1".toList)] },
+                       urlNorm := fun _ => none, permPull := true, permPush := true, udpOk := true }
+    let rq (m : Method) (sp tr : String) : Input :=
+      .req { method := m, cseq := [], path := "/a".toList, setupPath := sp.toList, transport := tr.toList,
+             ctypeSdp := false, range := [], body := 0 } env
+    (trace genCfg (Sess.init false [])
+      [rq .describe "rtsp://h:554/a" "", rq .setup "rtsp://h:554/a/t=1" "RTP/AVP/TCP;interleaved=0-1", rq .play "rtsp://h:554/a" "",
+       rq .options "rtsp://h:554/a" ""]).map (·.media) = [false, false, false, true] := by
+  decide
 
 /-- non-vacuity of `c12_one_response` / `c12_455_inert`: an open session, and a request that is
     answered 455 (PLAY before anything else) -/
